@@ -278,7 +278,7 @@ def eval_case(shape, form, sel, st, replaying=False):
     st.inc('evaluations', n_calls)
     # bound method: only when the first parameter is a positional one the selection leaves alone
     first = shape[0] if shape else None
-    if g is not f and first and first[1] in (PO, POK) and not first[2] and exp and exp[0][0] == first[0] and not _selected(form, shape, sel, first[0]):
+    if g is not f and first and first[1] in (PO, POK) and not first[2] and exp and exp[0][0] == first[0] and not _names_first(form, sel, first[0]):
         holder = type('H', (object,), {'m': g, 't': twin})
         inst = holder()
         try:
@@ -311,21 +311,17 @@ def eval_case(shape, form, sel, st, replaying=False):
         st.inc('bound_cases')
 
 
-def _selected(form, shape, sel, name):
+def _names_first(form, sel, name):
+    """Does the *written* selection name the first parameter (the instance)?  Sets computed by the start=/end=/auto
+    forms are recomputed on the bound method and may legitimately cover it."""
     if form in ('kwo>poso', 'poso>kwo'):
         return name in sel[0] or name in sel[1]
-    if form == 'start':
-        return name in (start_selection(shape, sel) or ())
-    if form == 'end':
-        return name in (end_selection(shape, sel) or ())
-    if form == 'start+names':
-        return name in (start_selection(shape, sel[0]) or ()) or name in sel[1]
-    if form == 'end+names':
-        return name in (end_selection(shape, sel[0]) or ()) or name in sel[1]
-    if form == 'auto':
-        return name in auto_selection(shape, ())
+    if form in ('start', 'end'):
+        return sel == name
+    if form in ('start+names', 'end+names'):
+        return sel[0] == name or name in sel[1]
     if form == 'auto-exc':
-        return name in (auto_selection(shape, sel) or ())
+        return name in sel
     return False
 
 
@@ -368,7 +364,7 @@ def run(tier, seed):
     }
     assumptions = [
         'keyword-only order between natively keyword-only and converted parameters is not fixed by the property; it is compared as a set with the relative order inside each group kept',
-        'bound-method behaviour is checked when the first parameter is a required positional one that the selection leaves alone (selecting self itself is outside the property)',
+        'bound-method behaviour is checked when the first parameter is a required positional one that the written selection does not name (naming self itself is outside the property); sets computed by start=/end= may cover it',
         'calls naming a positional-only parameter by keyword next to **kwargs are excluded (version dependent)',
     ]
     return st, coverage, assumptions
